@@ -69,6 +69,7 @@ def handle (j : Json) : Except String Json := do
   | "sql_refs" =>
     let d ← Codec.db (← j.getObjVal? "db")
     pure (Json.mkObj [("refs", .arr (d.refs.map fun r => encR (Sql.renderRefTop d r)).toArray)])
+  | "hist" => Cont.runHist j
   | "reorder" =>
     let d ← Codec.db (← j.getObjVal? "db")
     pure (Json.mkObj [("ok", jnats (Sql.reorderIdx d.tables d.refs))])
